@@ -129,8 +129,23 @@ Op == /\ l <= Len(Trace) /\ Trace[l].ev = "op" /\ ~skip
                       ELSE IF broken THEN {cur \ {Abs(files[e.shard])}}
                       ELSE After(cur, o, nd, pr)
              expOk == ~broken \/ (e.op = "explode" /\ files[e.shard].err = "empty")
+             \* Compound shards without repositories are garbage that cannot be told apart (their
+             \* file name is the hash of the live repository names, so a new one may or may not
+             \* replace an old one): the set of shards WITH repositories must be an allowed one,
+             \* and the number of repository-less shards may grow by one only when the operation
+             \* produces one, and shrinks by one when such a shard is exploded.
+             ne(d)  == {sh \in d : sh.repos # <<>>}
+             nEmp(m) == Cardinality({f \in DOMAIN m : m[f].repos = <<>>})
+             eB    == nEmp(files)
+             eA    == nEmp(FileMap(st))
+             makesE == e.op = "merge" /\ ~broken /\ \E m \in MergeResults(o.shards, nd, pr) : m.repos = <<>>
+             okE   == IF e.op = "explode" /\ files[e.shard].repos = <<>> THEN eA = eB - (IF okRep THEN 1 ELSE 0)
+                      ELSE IF makesE THEN eA \in {eB, eB + 1}
+                      ELSE eA = eB
+             nNE   == Cardinality({i \in DOMAIN st.shards : st.shards[i].repos # <<>>})
              wS    == (IF okRep # expOk THEN {IF okRep THEN "unexpected-success" \o tag ELSE "op-error" \o tag} ELSE {})
-                      \cup (IF D \notin expD \/ Cardinality(D) # Len(st.shards) THEN {"structure" \o tag} ELSE {})
+                      \cup (IF ne(D) \notin {ne(d) : d \in expD} \/ Cardinality(ne(D)) # nNE \/ ~okE
+                            THEN {"structure" \o tag} ELSE {})
                       \cup (IF e.leftovers # <<>> THEN {"leftover-files" \o tag} ELSE {})
              wC    == ContentWhys(st, D, known, klist, prevc, prevl)
          IN IF bad THEN /\ Reject(IF e.reported = "not run" THEN "prefix-diverged" ELSE "harness:unknown-shard",
